@@ -123,6 +123,11 @@ def open_fields(root: pathlib.Path):
             n += 1
             return m.group(1) + body + m.group(3)
         s2 = re.sub(r'(pub(?:\(crate\))? struct \w+ \{\n)(.*?)(\n\})', fix, s, flags=re.S)
+        # private sub-modules and private inherent methods become crate-visible too
+        s2 = re.sub(r'^mod ((?:r#)?\w+);', r'pub(crate) mod \1;', s2, flags=re.M)
+        def fix_impl(m):
+            return m.group(1) + re.sub(r'^    fn ', '    pub(crate) fn ', m.group(2), flags=re.M) + m.group(3)
+        s2 = re.sub(r'(^impl(?:<[^>]*>)? \w+(?:<[^>]*>)? \{\n)(.*?)(^\}\n)', fix_impl, s2, flags=re.S | re.M)
         if s2 != s:
             f.write_text(s2)
     return n
@@ -151,7 +156,8 @@ def apply_gating(root: pathlib.Path):
         gen.append(f'    impl VerifKind for {ty} {{ const K: u32 = {i}; }}')
         gen.append(f'    pub const K_{name.upper()}: u32 = {i};')
     gen += ['    pub static mut ALLOWED: u32 = u32::MAX;',
-            '    pub fn allow(kinds: &[u32]) { let mut m = 0u32; let mut i = 0; while i < kinds.len() { m |= 1 << kinds[i]; i += 1; } unsafe { ALLOWED = m; } }',
+            '    /// mask = OR of (1 << K_x); no loop here: harness unwind bounds must stay minimal',
+            '    pub fn allow_mask(m: u32) { unsafe { ALLOWED = m; } }',
             '    pub fn allow_all() { unsafe { ALLOWED = u32::MAX; } }',
             '    #[inline(always)] pub fn gate_of<T: VerifKind>(_: &T) { if unsafe { ALLOWED } & (1 << T::K) == 0 { panic!("instruction kind outside the set declared by the harness") } }',
             '}', '']
